@@ -625,7 +625,7 @@ def parseStmts : Nat → List Tok → Option Api
 
 /-- `Parser.Parse` + `CheckErrors`: `none` iff an error is reported. The fuel only bounds the recursion depth of the
 model functions (the real parser has none); twice the number of tokens is enough for every program the printer
-writes (`szApi_le_len` / `parse_print_partial` in Proofs2) and is validated for all other inputs by the correspondence. -/
+writes (`szApi_le_len` / `parseStmts_print` in Proofs3) and is validated for all other inputs by the correspondence. -/
 def parse (ts : List Tok) : Option Api := parseStmts (2 * ts.length + 2) ts
 
 /-! ### What `Format` drops (`norm`) -/
